@@ -28,8 +28,9 @@ ASSUMPTIONS = cc.ASSUMPTIONS_CORE + ctxhist.ASSUMPTIONS
 
 def extra(tier, rng):
     import coregen
-    return [{"special": "overlap", "extra": e} for e in (False, True)] + [cc.ctxraise_case(w, n, h, sb) for w in ("pause", "resume") for n in (0, 1, 2) for h in (0, 1) for sb in (0, 1)] + [coregen.override_family(rng) for _ in range(150 if tier == "quick" else 3000)] + \
-        ctxhist.cases(tier, rng) + cc.corefam4.callctx_cases(tier, cc.fork(rng, "callctx"))
+    return [{"special": "overlap", "extra": e} for e in (False, True)] + cc.ctxraise_cases(two_hooks=False) + [coregen.override_family(rng) for _ in range(150 if tier == "quick" else 3000)] + \
+        ctxhist.cases(tier, rng) + cc.corefam4.callctx_cases(tier, cc.fork(rng, "callctx")) + \
+        cc.guard_ctx_cases(tier, cc.fork(rng, "guard"))
 
 
 def plan(tier, seed):
@@ -37,22 +38,22 @@ def plan(tier, seed):
 
 
 def run_case(case):
-    if case.get("special") == "ctxhist":
+    if case.get("special") in ("ctxhist", "ctxwith"):
         return ctxhist.run(case)
     return cc.run_case_for(PID, case)
 
 
 def shrink(case):
-    if case.get("special") == "ctxhist":
+    if case.get("special") in ("ctxhist", "ctxwith"):
         return ctxhist.shrink(case)
     return cc.shrink_case(case)
 
 
 def neighbours(case, rng):
-    if case.get("special") == "ctxhist":
+    if case.get("special") in ("ctxhist", "ctxwith"):
         return ctxhist.neighbours(case, rng)
     return cc.neighbours_case(case, rng, [p for p, _ in MIX])
 
 
 def signature(case, v):
-    return cc.signature_for(case, v)
+    return cc.signature_for(case, v, PID)
